@@ -28,16 +28,20 @@ MANIFEST = dict(
               'correspondence run under virtual time with scripted HTTP',
     design='5/C12',
 )
-GEN = ["SseUnits"]
+GEN = []
+SUPP_GEN = ["SseUnits"]
 THEOREMS = [
     "c12_endpoint_forms", "c12_data_only_announcement", "c12_live_or_raise", "c12_enter_bounded", "c12_enter_complete",
     "c12_race_exactly_once", "c12_event_first_any_post", "c12_instances_independent", "c12_options_irrelevant", "c12_race_count", "c12_request_leaves_idle", "c12_serial_requests",
     "c12_stream_chunk_independent", "c12_delivery_chunk_independent", "c12_stream_delivers_rendered",
     "c12_stream_delivers_conformant", "c12_server_messages_once_in_order", "c12_cleanup_closes_all",
-    "c12_stream_end_after_announcement", "c12_stream_end_requests", "c12_post_target_function", "c12_endpoint_same_origin", "c12_endpoint_translated_agrees", "c12_session_id_none_iff",
-    "c12_bearer_value", "c12_headers", "c12_headers_transport_adds_nothing", "c12_header_literals_agree",
-    "c12_params_accept_iff", "c12_params_normalised", "c12_param_rules_agree", "c12_is_sse_url_spec",
-    "c12_sse_endpoint_is_sse_url", "c12_not_started",
+    "c12_stream_end_after_announcement", "c12_stream_end_requests", "c12_post_target_function", "c12_endpoint_same_origin",
+]
+# not stated by the property text: Props/C12Supp.lean (INFO only, never a verdict)
+SUPP_THEOREMS = [
+    "c12_endpoint_translated_agrees", "c12_session_id_none_iff", "c12_bearer_value", "c12_headers",
+    "c12_headers_transport_adds_nothing", "c12_header_literals_agree", "c12_params_accept_iff", "c12_params_normalised",
+    "c12_param_rules_agree", "c12_is_sse_url_spec", "c12_sse_endpoint_is_sse_url", "c12_not_started",
 ]
 RULE = (
     "establishment {endpoint announced in 7 accepted forms x LF/CRLF x padding x announce tick (early, mid, timeout-1), 4xx/5xx/3xx/204, "
@@ -622,6 +626,7 @@ class Units(Suite):
     validation, is_sse_url, never-started guards): real functions vs `Model/SseUnits.lean`.  Not
     implied by the property text: differences are informational (notes / distribution)."""
     name = "units"
+    supplementary = True
 
     def cases(self, ctx, budget):
         return U.cases(budget, ctx.sub_rng("c12-units", budget))
@@ -652,8 +657,8 @@ class Units(Suite):
         if not ok:
             INFO["differs/" + op] += 1
             INFO_FIRST.setdefault("differs/" + op, f"case {canon(case)[:200]} impl {canon(o)[:200]} model {canon(m)[:200]}")
-        else:
-            INFO["agrees/" + op] += 1
+            return f"units/{op} differs"
+        INFO["agrees/" + op] += 1
         return None
 
     def kind(self, case, o):
